@@ -14,17 +14,53 @@ pub trait Factory<T> {
 pub trait Reset {
     /// Reset the instance, keep the util location.
     fn reset(&mut self);
+    /// Verification hook: is the instance observably empty (as after a reset)?
+    #[cfg(qmc_verif)]
+    fn verif_is_clean(&self) -> bool {
+        true
+    }
+}
+
+/// Verification hook: thread-local log of pool events.
+#[cfg(qmc_verif)]
+pub mod verif_log {
+    use std::cell::RefCell;
+
+    /// One pool event: (buffer type, +1 for get / -1 for return / 0 for exhaustion,
+    /// clean after reset, instances left in the pool after the event).
+    pub type PoolEvent = (&'static str, i8, bool, usize);
+
+    thread_local! {
+        static LOG: RefCell<Vec<PoolEvent>> = RefCell::new(Vec::new());
+    }
+
+    pub(crate) fn push(ev: PoolEvent) {
+        LOG.with(|l| l.borrow_mut().push(ev));
+    }
+
+    /// Take (and clear) the pool event log of the current thread.
+    pub fn take() -> Vec<PoolEvent> {
+        LOG.with(|l| std::mem::take(&mut *l.borrow_mut()))
+    }
 }
 
 impl<T> Reset for Vec<T> {
     fn reset(&mut self) {
         self.clear()
     }
+    #[cfg(qmc_verif)]
+    fn verif_is_clean(&self) -> bool {
+        self.is_empty()
+    }
 }
 
 impl<T> Reset for BinaryHeap<T> {
     fn reset(&mut self) {
         self.clear()
+    }
+    #[cfg(qmc_verif)]
+    fn verif_is_clean(&self) -> bool {
+        self.is_empty()
     }
 }
 
@@ -51,6 +87,13 @@ impl<T: Default + Reset> Allocator<T> {
 impl<T: Default + Reset> Factory<T> for Allocator<T> {
     #[track_caller]
     fn get_instance(&mut self) -> T {
+        #[cfg(qmc_verif)]
+        verif_log::push((
+            std::any::type_name::<T>(),
+            if self.instances.is_empty() { 0 } else { 1 },
+            true,
+            self.instances.len().saturating_sub(1),
+        ));
         match self.instances.pop() {
             None => {
                 if self.gen_more {
@@ -65,6 +108,13 @@ impl<T: Default + Reset> Factory<T> for Allocator<T> {
 
     fn return_instance(&mut self, mut t: T) {
         t.reset();
+        #[cfg(qmc_verif)]
+        verif_log::push((
+            std::any::type_name::<T>(),
+            -1,
+            t.verif_is_clean(),
+            self.instances.len() + 1,
+        ));
         self.instances.push(t)
     }
 }
